@@ -336,7 +336,13 @@ def rule_limit(R):
     roles.clause_negotiated_per_connection(R, "limit", ("maximum_packet_size",))
 
 
+def rule_reason(R):
+    """the PUBACK outcome reported to the application follows ReasonCode::as_result (MQTT 5 2.4: below 0x80) -- shared clause"""
+    roles.clause_reason_predicates(R, "reason")
+
+
 def run(R):
+    R.rule("reason", rule_reason)
     R.rule("limit", rule_limit)
     R.rule("final", rule_final)
     R.rule("replay", rule_replay)
